@@ -971,6 +971,16 @@ def finish(ctx, plist, nontriv, failed, nsnap, nsnap_nontriv):
     others.sort(key=lambda v: (v.get("probe_tag") in ("random", "pair", "snapshot"), len(v.get("input", ""))))
     ctx.violations[:] = list(seen.values()) + others[:5]
     roles = sorted({(p["tag"], p["role"]) for p in plist})
+    sites = manifest().get("alloc_sites", {})
+    runtime = sorted(k for k, v in sites.items() if v == "runtime")
+    probed = set()
+    for p in plist:
+        probed.update(p.get("sites") or [])
+    unc = [k for k in runtime if k not in probed]
+    if unc:
+        ctx.notes.append("allocation sites without a mid-operation probe (add one to MID_OPS): %s" % ", ".join(unc))
+    ctx.cov.update({"alloc_sites_runtime": len(runtime), "alloc_sites_probed": len(runtime) - len(unc), "alloc_sites_unprobed": unc,
+                    "alloc_sites_other": {c: sorted(k for k, v in sites.items() if v == c) for c in ("host-api", "hook", "vm-init", "constructor")}})
     prem = ctx.cov.get("premise", {})
     if prem.get("unverified"):
         ctx.notes.append("%d probes could not verify their premise (object reachable ONLY through the probed role) and are not counted as "
